@@ -38,10 +38,12 @@ func (deb *Deb) CheckDebsig(validKeys openpgp.EntityList, sigType string) (signe
 			return nil, fmt.Errorf("archive member without content")
 		}
 	}
-	binaryFlag.Data.Seek(0, 0)
-	control.Data.Seek(0, 0)
-	data.Data.Seek(0, 0)
-	sig.Data.Seek(0, 0)
-	signedData := io.MultiReader(binaryFlag.Data, control.Data, data.Data)
-	return openpgp.CheckDetachedSignature(validKeys, signedData, sig.Data)
+	// Read the members through readers of our own: deb.Data (and anyone else
+	// holding an ArEntry) reads from member.Data, and checking the signature
+	// must not move or drain that.
+	whole := func(member *ArEntry) io.Reader {
+		return io.NewSectionReader(member.Data, 0, member.Data.Size())
+	}
+	signedData := io.MultiReader(whole(binaryFlag), whole(control), whole(data))
+	return openpgp.CheckDetachedSignature(validKeys, signedData, whole(sig))
 }
